@@ -104,19 +104,157 @@ package recordlayer
 // consecutive, non-empty sub-slices of buf that cover it exactly.
 
 //@ define REC_LEN16(r, o) (int(r[o])<<8 | int(r[(o)+1]))
-//@ define PART_IN(out, buf) forall(0, len(out), func(k int) bool { return sameArray(out[k], buf) && len(out[k]) >= 13 })
+// One atom per quantified clause (conjunctions inside one quantifier are much slower to discharge).
+//@ define PART_IN(out, buf) forall(0, len(out), func(k int) bool { return sameArray(out[k], buf) })
+//@ define PART_MINLEN(out, n) forall(0, len(out), func(k int) bool { return len(out[k]) >= n })
 //@ define PART_FIRST(out, buf) (len(out) > 0 ==> offsetOf(out[0]) == offsetOf(buf))
-//@ define PART_CONSEC(out) forall(0, len(out)-1, func(k int) bool { return offsetOf(out[k+1]) == offsetOf(out[k]) + len(out[k]) })
+// (written with two indices so that instantiating it creates no new out[k+1] terms)
+//@ define PART_CONSEC(out) forall(0, len(out), func(k int) bool { return forall(0, len(out), func(j int) bool { return j == k+1 ==> offsetOf(out[j]) == offsetOf(out[k]) + len(out[k]) }) })
 //@ define PART_LAST(out, buf, end) (len(out) > 0 ==> offsetOf(out[len(out)-1]) + len(out[len(out)-1]) == offsetOf(buf) + (end))
+// the length field of record k, read through buf (out[k] is a window of buf starting at offsetOf(out[k]) - offsetOf(buf))
+//@ define PART_DECL(out, buf) forall(0, len(out), func(k int) bool { return len(out[k]) == 13 + REC_LEN16(buf, offsetOf(out[k]) - offsetOf(buf) + 11) })
 
 //@ func UnpackDatagram
-//@ loop offset: in-buf: forall(0, len(out), func(k int) bool { return sameArray(out[k], buf) })
-//@ loop offset: min-len: forall(0, len(out), func(k int) bool { return len(out[k]) >= 13 })
+//@ loop offset: in-buf: PART_IN(out, buf)
+//@ loop offset: min-len: PART_MINLEN(out, 13)
 //@ loop offset: first: PART_FIRST(out, buf)
 //@ loop offset: last: PART_LAST(out, buf, offset)
 //@ loop offset: none-yet: len(out) == 0 ==> offset == 0
-//@ ensures in-buf: result1 == nil ==> forall(0, len(result0), func(k int) bool { return sameArray(result0[k], buf) })
-//@ ensures min-len: result1 == nil ==> forall(0, len(result0), func(k int) bool { return len(result0[k]) >= 13 })
+//@ loop offset: some: len(out) > 0 ==> offset >= 13 && len(buf) > 13
+//@ loop offset: non-nil: out != nil
+//@ loop offset: first-fits: len(out) > 0 ==> 13 + REC_LEN16(buf, 11) <= offset
+//@ loop offset: first-only: len(out) == 1 ==> offset == 13 + REC_LEN16(buf, 11)
+//@ loop offset: more: len(out) >= 2 ==> offset > 13 + REC_LEN16(buf, 11)
+//@ loop offset: consecutive: PART_CONSEC(out)
+//@ loop offset: declared: PART_DECL(out, buf)
+//@ loop offset: input-kept: forall(0, len(buf), func(j int) bool { return buf[j] == old(buf[j]) })
+//@ ensures err-nil: result1 != nil ==> result0 == nil
+//@ ensures empty: len(buf) == 0 ==> result1 == nil && len(result0) == 0
+//@ ensures nonempty: result0 != nil && len(buf) > 0 ==> len(result0) > 0
+//@ ensures in-buf: result1 == nil ==> PART_IN(result0, buf)
+//@ ensures min-len: result1 == nil ==> PART_MINLEN(result0, 13)
 //@ ensures first: result1 == nil ==> PART_FIRST(result0, buf)
+//@ ensures consecutive: result1 == nil ==> PART_CONSEC(result0)
 //@ ensures last: result1 == nil ==> PART_LAST(result0, buf, len(buf))
+//@ ensures declared-len: result1 == nil ==> PART_DECL(result0, buf)
+//@ ensures short-first: len(buf) > 0 && len(buf) <= 13 ==> result1 != nil
+//@ ensures truncated-first: len(buf) > 13 && 13 + REC_LEN16(buf, 11) > len(buf) ==> result1 != nil
+//@ ensures short-first-ref: len(buf) > 0 && len(buf) <= 13 ==> sameRef(result1, ErrInvalidPacketLength) && result0 == nil
+//@ ensures truncated-first-ref: len(buf) > 13 && 13 + REC_LEN16(buf, 11) > len(buf) ==> sameRef(result1, ErrInvalidPacketLength) && result0 == nil
+//@ ensures single-ok: len(buf) > 13 && 13 + REC_LEN16(buf, 11) == len(buf) ==> result1 == nil && len(result0) == 1
+//@ ensures input-unchanged: forall(0, len(buf), func(j int) bool { return buf[j] == old(buf[j]) })
+//@ end
+
+// With connection IDs (RFC 9146 4): a tls12_cid record (type 25) carries cidLength CID bytes between the
+// sequence number and the length field.
+
+//@ define REC_START(r, buf) (offsetOf(r) - offsetOf(buf))
+//@ define PART_DECL_PLAIN(out, buf) forall(0, len(out), func(k int) bool { return buf[REC_START(out[k], buf)] != 25 ==> len(out[k]) == 13 + REC_LEN16(buf, REC_START(out[k], buf) + 11) })
+//@ define PART_DECL_CID(out, buf, n) forall(0, len(out), func(k int) bool { return buf[REC_START(out[k], buf)] == 25 ==> len(out[k]) == 13 + n + REC_LEN16(buf, REC_START(out[k], buf) + 11 + n) })
+
+//@ func ContentAwareUnpackDatagram
+//@ loop offset: in-buf: PART_IN(out, buf)
+//@ loop offset: min-len: PART_MINLEN(out, 13)
+//@ loop offset: first: PART_FIRST(out, buf)
+//@ loop offset: last: PART_LAST(out, buf, offset)
+//@ loop offset: none-yet: len(out) == 0 ==> offset == 0
+//@ loop offset: some: len(out) > 0 ==> offset >= 13 && len(buf) > 13
+//@ loop offset: non-nil: out != nil
+//@ loop offset: first-fits-plain: len(out) > 0 && buf[0] != 25 ==> 13 + REC_LEN16(buf, 11) <= offset
+//@ loop offset: first-fits-cid: len(out) > 0 && buf[0] == 25 ==> 13 + cidLength + REC_LEN16(buf, 11 + cidLength) <= offset && len(buf) > 13 + cidLength
+//@ loop offset: consecutive: PART_CONSEC(out)
+// (no loop invariant is given for the two declared-len clauses below: the solvers cannot decide its preservation
+// across append, and as an assumption it makes the other invariants undecided too; the clauses stay, undischarged)
+//@ loop offset: input-kept: forall(0, len(buf), func(j int) bool { return buf[j] == old(buf[j]) })
+//@ ensures err-nil: result1 != nil ==> result0 == nil
+//@ ensures empty: len(buf) == 0 ==> result1 == nil && len(result0) == 0
+//@ ensures nonempty: result0 != nil && len(buf) > 0 ==> len(result0) > 0
+//@ ensures in-buf: result1 == nil ==> PART_IN(result0, buf)
+//@ ensures min-len: result1 == nil ==> PART_MINLEN(result0, 13)
+//@ ensures first: result1 == nil ==> PART_FIRST(result0, buf)
+//@ ensures consecutive: result1 == nil ==> PART_CONSEC(result0)
+//@ ensures last: result1 == nil ==> PART_LAST(result0, buf, len(buf))
+//@ ensures declared-len-plain: result1 == nil ==> PART_DECL_PLAIN(result0, buf)
+//@ ensures declared-len-cid: result1 == nil ==> PART_DECL_CID(result0, buf, cidLength)
+//@ ensures short-first-ref: len(buf) > 0 && buf[0] != 25 && len(buf) <= 13 ==> sameRef(result1, ErrInvalidPacketLength) && result0 == nil
+//@ ensures short-first-cid-ref: len(buf) > 0 && buf[0] == 25 && len(buf) <= 13 + cidLength ==> sameRef(result1, ErrInvalidPacketLength) && result0 == nil
+//@ ensures truncated-first-ref: len(buf) > 13 && buf[0] != 25 && 13 + REC_LEN16(buf, 11) > len(buf) ==> sameRef(result1, ErrInvalidPacketLength) && result0 == nil
+//@ ensures truncated-first-cid-ref: len(buf) > 13 + cidLength && buf[0] == 25 && 13 + cidLength + REC_LEN16(buf, 11 + cidLength) > len(buf) ==> sameRef(result1, ErrInvalidPacketLength) && result0 == nil
+//@ ensures truncated-first: len(buf) > 13 && buf[0] != 25 && 13 + REC_LEN16(buf, 11) > len(buf) ==> result1 != nil
+//@ ensures input-unchanged: forall(0, len(buf), func(j int) bool { return buf[j] == old(buf[j]) })
+//@ end
+
+// RFC 9147 4: DTLSCiphertext = unified header (here always with S=1 and L=1 when sending) followed by
+// `length` bytes of encrypted record; 16 <= length <= 2^14 + 256.
+
+//@ func CiphertextRecord13.Marshal
+//@ ensures too-short: len(old(r.EncryptedRecord)) < 16 ==> result1 != nil
+//@ ensures too-long: len(old(r.EncryptedRecord)) > 16640 ==> result1 != nil
+//@ ensures cid-too-big: len(old(r.Header.ConnectionID)) > 255 ==> result1 != nil
+//@ ensures ok: len(old(r.EncryptedRecord)) >= 16 && len(old(r.EncryptedRecord)) <= 16640 && len(old(r.Header.ConnectionID)) <= 255 ==> result1 == nil
+//@ ensures size: result1 == nil ==> len(result0) == 5 + len(r.Header.ConnectionID) + len(r.EncryptedRecord)
+//@ ensures layout-first: result1 == nil ==> result0[0]&0xE0 == 0x20 && UH_C(result0) == (len(r.Header.ConnectionID) > 0) && UH_S(result0) && UH_L(result0)
+//@    && result0[0]&0x03 == r.Header.EpochLow&0x03
+//@ ensures layout-cid: result1 == nil ==> forall(0, len(r.Header.ConnectionID), func(i int) bool { return result0[1+i] == r.Header.ConnectionID[i] })
+//@ ensures layout-seq: result1 == nil ==> UH_BE16(result0, 1+len(r.Header.ConnectionID)) == r.Header.SequenceNumber
+//@ ensures layout-length: result1 == nil ==> int(UH_BE16(result0, 3+len(r.Header.ConnectionID))) == len(r.EncryptedRecord)
+//@ ensures layout-body: result1 == nil ==> forall(0, len(r.EncryptedRecord), func(i int) bool { return result0[5+len(r.Header.ConnectionID)+i] == r.EncryptedRecord[i] })
+//@ ensures frame: len(r.EncryptedRecord) == old(len(r.EncryptedRecord)) && len(r.Header.ConnectionID) == old(len(r.Header.ConnectionID))
+//@    && r.Header.SequenceNumber == old(r.Header.SequenceNumber) && r.Header.EpochLow == old(r.Header.EpochLow)
+//@ end
+
+// hs = size of the unified header announced by the first byte, CID length from context.
+//@ define CR_CID(r, d) len(r.Header.ConnectionID)
+//@ define CR_LEN_OK(n) ((n) >= 16 && (n) <= 16640)
+
+//@ func CiphertextRecord13.Unmarshal
+//@ ensures empty: len(data) == 0 ==> result != nil
+//@ ensures bad-fixed-bits: len(data) >= 1 && data[0]&0xE0 != 0x20 ==> result != nil
+//@ ensures header-flags: result == nil ==> r.Header.SeqBit == UH_S(data) && r.Header.LengthBit == UH_L(data) && r.Header.EpochLow == data[0]&0x03
+//@ ensures header-cid: result == nil && UH_C(data) ==> len(r.Header.ConnectionID) == len(old(r.Header.ConnectionID))
+//@ ensures header-nocid: result == nil && !UH_C(data) ==> len(r.Header.ConnectionID) == 0
+//@ ensures size-sl: result == nil && UH_S(data) && UH_L(data) ==> len(data) == 5 + CR_CID(r, data) + len(r.EncryptedRecord)
+//@ ensures size-s: result == nil && UH_S(data) && !UH_L(data) ==> len(data) == 3 + CR_CID(r, data) + len(r.EncryptedRecord)
+//@ ensures size-l: result == nil && !UH_S(data) && UH_L(data) ==> len(data) == 4 + CR_CID(r, data) + len(r.EncryptedRecord)
+//@ ensures size-none: result == nil && !UH_S(data) && !UH_L(data) ==> len(data) == 2 + CR_CID(r, data) + len(r.EncryptedRecord)
+//@ ensures declared-len: result == nil && UH_L(data) ==> len(r.EncryptedRecord) == int(r.Header.Length)
+//@ ensures declared-len-sl: result == nil && UH_S(data) && UH_L(data) ==> len(r.EncryptedRecord) == int(UH_BE16(data, 3+CR_CID(r, data)))
+//@ ensures declared-len-l: result == nil && !UH_S(data) && UH_L(data) ==> len(r.EncryptedRecord) == int(UH_BE16(data, 2+CR_CID(r, data)))
+//@ ensures body-range: result == nil ==> CR_LEN_OK(len(r.EncryptedRecord))
+//@ ensures body: result == nil ==> forall(0, len(r.EncryptedRecord), func(i int) bool { return r.EncryptedRecord[i] == data[len(data)-len(r.EncryptedRecord)+i] })
+//@ ensures fresh: result == nil ==> !sameArray(r.EncryptedRecord, data)
+//@ ensures input-unchanged: forall(0, len(data), func(i int) bool { return data[i] == old(data[i]) })
+//@ end
+
+// RFC 9147 4: DTLSPlaintext = type(1) legacy_record_version(2) epoch(2) sequence_number(6) length(2) fragment[length];
+// epoch 0 only, length <= 2^14, types alert(21), handshake(22), ack(26).
+
+//@ func PlaintextRecord13.Unmarshal
+//@ ensures short: len(data) < 13 ==> result != nil
+//@ ensures bad-epoch: len(data) >= 13 && (data[3] != 0 || data[4] != 0) ==> result != nil
+//@ ensures truncated: len(data) >= 13 && len(data) - 13 < REC_LEN16(data, 11) ==> result != nil
+//@ ensures trailing: len(data) >= 13 && len(data) - 13 > REC_LEN16(data, 11) ==> result != nil
+//@ ensures too-long: len(data) >= 13 && REC_LEN16(data, 11) > 16384 ==> result != nil
+//@ ensures bad-type: len(data) >= 13 && data[0] != 21 && data[0] != 22 && data[0] != 26 ==> result != nil
+//@ ensures header: result == nil ==> r.Header.ContentType == protocol.ContentType(data[0]) && r.Header.Version.Major == data[1] && r.Header.Version.Minor == data[2]
+//@    && r.Header.Epoch == 0 && int(r.Header.ContentLen) == REC_LEN16(data, 11) && r.Header.ConnectionID == nil
+//@ ensures header-seq: result == nil ==> r.Header.SequenceNumber == uint64(data[5])<<40 | uint64(data[6])<<32 | uint64(data[7])<<24 | uint64(data[8])<<16 | uint64(data[9])<<8 | uint64(data[10])
+//@ ensures declared-len: result == nil ==> len(data) == 13 + int(r.Header.ContentLen)
+//@ ensures alert-content: result == nil && data[0] == 21 ==> typeIs(r.Content, "*github.com/pion/dtls/v3/pkg/protocol/alert.Alert") && len(data) == 15
+//@    && r.Content.(*alert.Alert).Level == alert.Level(data[13]) && r.Content.(*alert.Alert).Description == alert.Description(data[14])
+//@ end
+
+// RFC 6347 4.1: DTLSPlaintext/DTLSCiphertext = 13 header bytes and `length` bytes of fragment.
+
+//@ func RecordLayer.Unmarshal
+//@ ensures short: len(data) < 13 ==> result != nil
+//@ ensures truncated: len(data) >= 13 && len(data) - 13 < REC_LEN16(data, 11) ==> result != nil
+//@ ensures bad-type: len(data) >= 13 && data[0] != 20 && data[0] != 21 && data[0] != 22 && data[0] != 23 && data[0] != 26 && data[0] != 27 ==> result != nil
+//@ ensures header: result == nil ==> r.Header.ContentType == protocol.ContentType(data[0]) && r.Header.Version.Major == data[1] && r.Header.Version.Minor == data[2]
+//@    && r.Header.Epoch == uint16(data[3])<<8 | uint16(data[4]) && int(r.Header.ContentLen) == REC_LEN16(data, 11)
+//@ ensures appdata-declared-len: result == nil && data[0] == 23 ==> typeIs(r.Content, "*github.com/pion/dtls/v3/pkg/protocol.ApplicationData")
+//@    && len(r.Content.(*protocol.ApplicationData).Data) == int(r.Header.ContentLen)
+//@ ensures appdata-content: result == nil && data[0] == 23 ==> forall(0, int(r.Header.ContentLen), func(i int) bool { return r.Content.(*protocol.ApplicationData).Data[i] == data[13+i] })
+//@ ensures alert-content: result == nil && data[0] == 21 ==> typeIs(r.Content, "*github.com/pion/dtls/v3/pkg/protocol/alert.Alert")
+//@    && r.Content.(*alert.Alert).Level == alert.Level(data[13]) && r.Content.(*alert.Alert).Description == alert.Description(data[14])
 //@ end
